@@ -29,6 +29,9 @@ it true, every step of it read off the MIR:
   fin-reset  finalize_reset performs finalize's calls, in order, on the same arguments, then reset.
   clone      Clone is derived for every context and engine type and no field holds a reference, raw
              pointer or shared cell: a clone shares no state with the original.
+  padding    finalisation overwrites every staging-buffer byte it hands to the compression function (standard_padding
+             zero-fills to N / N - rem, sponge pad zeroes between the marker bytes): stale bytes of an earlier split, reset or
+             clone cannot reach a digest (shared with C01)
 Not decided: the digest values themselves (C01), SIMD lane batching (C16)."""
 import re
 
